@@ -6,7 +6,7 @@
 EXTENDS EwLsqOps, TLC, Json
 CONSTANTS NSet, Reps
 VARIABLE c
-SampleClassSeq == <<"ew", "weibull", "lognormal", "uniform", "zeros", "ties", "integers">>
+SampleClassSeq == <<"ew", "weibull", "lognormal", "uniform", "zeros", "ties", "integers", "smalldelta">>
 WeightSeq == <<"none", "linear", "quadratic", "cubic", "array">>
 MethodSeq == <<"lsq", "wlsq">>
 FixedDeltas == <<"0.7", "0.001", "1.0", "50", "2.5", "0.01", "1.6", "10000">>
